@@ -7,5 +7,5 @@ EXTENDS EvalOrder
 AllOps        == ArithOps \cup CmpOps \cup BoolEqOps
 \* operator symbols used BELOW the root (the root always ranges over AllOps)
 QuickInner    == {"add", "lt"}
-ThoroughInner == {"add", "sub", "div", "lt", "eq", "beq"}
+ThoroughInner == {"add", "div", "lt"}
 =============================================================================
